@@ -57,7 +57,11 @@ def r03_1(ctx):
             wg, wb = want[key]
             r.ob("single child %s: guard %s" % (key, wg or "none"), g == wg, C.mloc(ch, a), "guard `%s`" % g)
         else:
-            r.ob("single child %s" % key, None, C.mloc(ch, a), "arm without a documented entry (guard `%s`): not decided" % g)
+            # an arm for a further expression kind is fine when it does what the catch-all arm does; anything else is a new case of the table
+            dflt = next((x for x in inner["arms"] if pat_str(x["pat"]) == "_"), None)
+            same = dflt is not None and expr_str(a["body"], names={}) == expr_str(dflt["body"], names={})
+            r.ob("single child %s" % key, True if same else False, C.mloc(ch, a),
+                 "same as the catch-all arm" if same else "an arm outside the documented table (guard `%s`) that does something else than the catch-all arm: `%s`" % (g, body[:80]))
         if key == "Arrow|Fn":
             ok = "key: Ident(" in body and "'default'" in body and "value: expr" in body
             r.ob("function child is the `default` slot itself", ok, C.mloc(ch, a), body[:140])
